@@ -20,3 +20,16 @@ func VerifSegmentSize(hdr []byte, i uint32) (uint32, error) {
 
 // VerifTotalSize re-exports streamHeader.totalSize.
 func VerifTotalSize(hdr []byte) (uint64, error) { return streamHeader{hdr}.totalSize() }
+
+// VerifBufIDs returns the addresses of the backing arrays of d.hdrbuf and d.buf (nil when
+// the buffer has no capacity), so that the harness can tell whether a Decode call allocated
+// a new buffer or reused the old one.  The addresses are only compared for equality.
+func (d *Decoder) VerifBufIDs() (hdr, buf *byte) {
+	if cap(d.hdrbuf) > 0 {
+		hdr = &d.hdrbuf[:1][0]
+	}
+	if cap(d.buf) > 0 {
+		buf = &d.buf[:1][0]
+	}
+	return hdr, buf
+}
